@@ -89,8 +89,14 @@ func traceDigest(obs *Obs, skipKeys map[string]bool) string {
 	for i, c := range obs.Conns {
 		// replies may list things in Go map iteration order (FTP FEAT): hash the sorted lines
 		fmt.Fprintf(h, "C%d %x closed=%v refused=%v\n", i, canonLines(c.Recv), c.ServerClosed, c.Refused)
+		// replies to datagrams released in the same step come from different goroutines: hash them sorted
+		var dl []string
 		for _, d := range c.Dgrams {
-			fmt.Fprintf(h, "D%d %x\n", i, d)
+			dl = append(dl, fmt.Sprintf("D%d %x\n", i, d))
+		}
+		sort.Strings(dl)
+		for _, l := range dl {
+			h.Write([]byte(l))
 		}
 	}
 	nl := append([]string(nil), obs.NetLog...)
